@@ -242,7 +242,7 @@ fn test(case: &Case, st: &mut Stats, counting: bool) -> CaseResult {
         let mut p = case.pool.clone();
         if case.under.contains_overlay() {
             for n in p.iter_mut() {
-                n.truncate(200);
+                crate::gen::cut_name(n, 200);
             }
         }
         p
